@@ -70,7 +70,7 @@ DOCS = [
      ["DataSet", "DnaMatrix"], {}),
     ("nexus:title-link", "nexus",
      "#NEXUS\nBEGIN TAXA;\n TITLE one;\n DIMENSIONS NTAX=2;\n TAXLABELS A B;\nEND;\nBEGIN TAXA;\n TITLE two;\n DIMENSIONS NTAX=2;\n TAXLABELS C D;\nEND;\n"
-     "BEGIN TREES;\n LINK TAXA = two;\n TREE t = (C,D);\nEND;\n", ["DataSet", "TreeList"], {}),
+     "BEGIN TREES;\n LINK TAXA = two;\n TREE t = (C,D);\nEND;\n", ["DataSet"], {}),
     ("nexus:unknown-block", "nexus",
      "#NEXUS\nBEGIN PAUP;\n set x=y;\nEND;\nBEGIN TREES;\n TREE t = (A,(B,C));\nEND;\n", ["DataSet", "TreeList"], {}),
     ("nexus:continuous", "nexus",
@@ -209,12 +209,10 @@ def single_edits(schema, text, quick, rng):
     out += [("del", i) for i in range(n)]
     for i in range(n + 1):
         for c in alpha:
-            if quick and rng.random() > 1 / 6.0:
-                continue
             out.append(("ins", i, c))
     for i in range(n):
         for c in alpha:
-            if c == text[i] or (quick and rng.random() > 1 / 6.0):
+            if c == text[i]:
                 continue
             out.append(("rep", i, c))
     sp = token_spans(schema, text)
@@ -224,8 +222,6 @@ def single_edits(schema, text, quick, rng):
     bounds = sorted(set([0, n] + [a for a, _ in sp] + [b for _, b in sp]))
     for b in bounds:
         for kw in KEYWORDS[schema]:
-            if quick and rng.random() > 1 / 3.0:
-                continue
             out.append(("kw", b, kw))
     return out
 
@@ -297,10 +293,10 @@ def t2(ctx):
     ctx.scope(sc_trunc, rule="every proper prefix of every base document x its routes; non-trivial = prefix of >= 1 character", exhaustive=True)
     ctx.scope(sc_edit, rule="single edits of every base document x its routes: delete each character; insert / replace by each of the "
                             "schema's token-alphabet characters at each position%s; drop each span of 1..3 tokens; insert each keyword at "
-                            "each token boundary%s; non-trivial = all" % ((" (seeded 1/6 sample)", " (seeded 1/3 sample)") if quick else ("", "")),
-              exhaustive=not quick)
+                            "each token boundary%s; non-trivial = all" % ("", ""),
+              exhaustive=True)
     ctx.scope(sc_dbl, rule="%d seeded random double edits (delete/insert/replace/keyword/truncate composed twice) per base document x its "
-                           "first route; non-trivial = all" % (150 if quick else 2500), exhaustive=False)
+                           "first route; non-trivial = all" % (500 if quick else 5000), exhaustive=False)
     ctx.scope(sc_str, rule="every string of <= %d characters over \"(),:;A1 '[]\" as Newick; '#NEXUS' + every sequence of <= %d of %d NEXUS "
                            "tokens; every string of <= %d symbols over 5-symbol PHYLIP and FASTA alphabets; non-trivial = non-empty"
                            % (3 if quick else 4, 2 if quick else 3, len(NEXUS_TOKENS), 3 if quick else 4), exhaustive=True)
@@ -315,7 +311,7 @@ def t2(ctx):
             for r in routes:
                 items.append(dict(schema=schema, text=t, route=r, kw=kw, doc=name, mut=mname(m), kind=m[0],
                                   scope=(sc_trunc if m[0] == "trunc" else sc_edit), m=list(m)))
-        for m in double_edits(schema, text, 150 if quick else 2500, rng):
+        for m in double_edits(schema, text, 500 if quick else 5000, rng):
             items.append(dict(schema=schema, text=apply(text, m), route=routes[0], kw=kw, doc=name, mut=mname(m), kind="2x", scope=sc_dbl, m=list(m)))
     for name, schema, text, routes, kw in short_strings(ctx.tier):
         for r in routes:
